@@ -107,6 +107,10 @@ package data
 //@   at call (reflect.Value).Bool#0 after set bv = res
 //@   at call (reflect.Value).String#0 after set sv = res
 //@   at call (reflect.Value).String#1 after set sv = res
+//@   ghost uv uint64 = 0
+//@   at call (reflect.Value).Uint#0 after set uv = res
+//@   at call (reflect.Value).Uint#1 assert[only-an-unsigned-value-within-the-int64-range-becomes-an-Int;C20] uv <= 9223372036854775807
+//@   at call (time.Time).Format#0 assert[a-time-is-never-formatted-with-the-empty-layout;C20] len(arg1) > 0
 //@   at call fmt.Sprint#* forbid[map-keys-are-the-underlying-strings;C20] false
 //@   at call fmt.Sprintf#* forbid[map-keys-are-the-underlying-strings;C20] false
 //@   loop 0
